@@ -331,7 +331,11 @@ func explainMissing(c cfg, a bufx.Annotation, ioMap map[string][]string, src *so
 			}
 		}
 		for _, p := range c.Ignore {
-			if strings.HasPrefix(wp, refNormalize(p)) {
+			if n := refNormalize(p); strings.HasPrefix(wp, n) {
+				if len(c.Modules) > 0 && strings.HasPrefix(c.ModuleDir, n) {
+					// part M: the path is a string prefix of the module DIRECTORY (the whole module went silent)
+					return "ignore-path/string-prefix-match/of-module-directory"
+				}
 				return "ignore-path/string-prefix-match"
 			}
 		}
